@@ -1943,6 +1943,9 @@ func (g Gateway) Uint32SliceDelete(ctx context.Context, in *hydrapb.Uint32SliceD
 			// if the length is 0, we can delete the treasure
 			size, err := treasureObj.Uint32SliceSize()
 			if err != nil || size == 0 {
+				// DeleteTreasure takes the guard of this treasure itself: let go of ours first,
+				// otherwise the request waits for itself forever (the deferred release is then a no-op)
+				treasureObj.ReleaseTreasureGuard(guardID)
 				// delete the treasure
 				if err := swampObj.DeleteTreasure(pair.GetKey(), false); err != nil {
 					errorsWhileDelete = append(errorsWhileDelete, err.Error())
